@@ -5,8 +5,8 @@
     gen/PolyglotRandoms.v).  The position's legal-move list [legal] is an input of the model
     (delivered by the real MoveGen in the correspondence; its correctness is C01). *)
 From Coq Require Import ZArith NArith List.
-From Texel Require Import Chess.Types gen.PolyglotRandoms Book.Polyglot Book.BuiltIn
-  Book.PolyglotProofs Book.SearchProofs Book.RangeProofs Book.BookTheorems.
+From Texel Require Import Chess.Types gen.PolyglotRandoms Book.Polyglot Book.BuiltIn Book.BookSpec
+  Book.PolyglotProofs Book.SearchProofs Book.RangeProofs Book.DecodeProofs Book.BookTheorems.
 Import ListNotations.
 Local Open Scope Z_scope.
 
@@ -47,6 +47,20 @@ Theorem C18_sorted_book_exact : forall f key pos, sortedFile f ->
     pr_cands pr = map (decodeCand pos) (filter (fun e => (entHash e =? key)%N) (fileEntries f)).
 Proof. exact sorted_book_exact. Qed.
 Print Assumptions C18_sorted_book_exact.
+
+(** PolyglotBook::getMove over the regenerated field/promotion/castling tables is the polyglot
+    format's definition of a move code (Book/BookSpec.v, literal constants) — for every position
+    and every 16-bit code; hence on a sorted file the candidates are the stored entries decoded
+    by the format's definition. *)
+Theorem C18_move_decode_spec : forall pos mv, (mv < 65536)%N -> getMove pos mv = specDecode pos mv.
+Proof. exact move_decode_spec. Qed.
+Print Assumptions C18_move_decode_spec.
+
+Theorem C18_candidates_decode_spec : forall f key pos pr, sortedFile f -> getBookEntriesPG f key pos = Some pr ->
+  pr_cands pr = map (fun e => (specDecode pos (entMove e), Z.of_N (entWeight e)))
+                    (filter (fun e => (entHash e =? key)%N) (fileEntries f)).
+Proof. exact candidates_decode_spec. Qed.
+Print Assumptions C18_candidates_decode_spec.
 
 (** Every stored move of positive weight (all moves under the key being legal) is returned for
     some random number below the sum, and Random::nextInt can deliver that number when the sum is
